@@ -56,8 +56,11 @@ class FitYamlWriter(YamlWriterMixin, FitDReprBase):
             _cost = self._kafe_object.cost_function_value
             _ndf = self._kafe_object.ndf
             if _gof is None:
-                _round_cost_sig = max(2, int(-np.floor(np.log(np.abs(_cost)) / np.log(10))) + 1)
-                _rounded_cost = round(_cost, _round_cost_sig)
+                if _cost != 0 and np.isfinite(_cost):
+                    _round_cost_sig = max(2, int(-np.floor(np.log(np.abs(_cost)) / np.log(10))) + 1)
+                    _rounded_cost = round(_cost, _round_cost_sig)
+                else:
+                    _rounded_cost = _cost  # nothing to round (fit ended where the cost function is not finite)
                 _preface_comment += "# Cost: %s\n" % _rounded_cost
             else:
                 _preface_comment += "# %s: %s\n" % (_gof_name, _gof)
